@@ -183,23 +183,27 @@ func runGrefcount(c *Ctx) {
 				}
 				if isFn(ev, an.startResolve) {
 					didStart = true
-					// begins with shutdown
+					// begins with the shutdown of the previous resolution: the first effect on every way
+					// through it is the generation bump (in a shutdown helper or in place)
 					if ev.Kind == core.KEnter {
-						var first *types.Func
+						bumped := false
+					scan:
 						for _, b := range p.Events[i+1:] {
-							if b.Kind == core.KEnter || b.Kind == core.KCall {
-								first = b.Callee
-								break
-							}
-							if b.Kind == core.KAssign || b.Kind == core.KGo {
-								break
+							switch {
+							case incDecField(b, nonce, token.INC):
+								bumped = true
+								break scan
+							case b.Kind == core.KAssign && !b.FieldInit && b.Var != nil && b.Var.IsField(), b.Kind == core.KGo, b.Kind == core.KCall && b.Callee == nil && b.Builtin == "":
+								break scan
+							case b.Kind == core.KExit && b.Inner == ev.Inner:
+								break scan
 							}
 						}
-						a.note("R7", core.FuncName(an.startResolve.Obj)+"/begins-with-shutdown", ev.Pos, first == nil || an.shutdown == nil || first.Origin() != an.shutdown.Obj,
-							"startResolveLocked shuts the previous resolution down first", "startResolveLocked does not begin with shutdown(): the previous value is not released and its resolver not cancelled before a new one starts", p)
+						a.note("R7", core.FuncName(an.startResolve.Obj)+"/begins-with-shutdown", ev.Pos, !bumped,
+							"every way through the (re)start of the resolution first bumps the generation (shuts the previous resolution down)", "a path through the (re)start of the resolution does not begin with the generation bump / shutdown: the previous value is not released and its resolver not cancelled before a new one starts (or an invalidation is dropped)", p)
 					}
 				}
-				if isFn(ev, an.shutdown) {
+				if incDecField(ev, nonce, token.INC) {
 					didShutdown = true
 				}
 				for _, cbf := range an.callRefCbs {
@@ -262,6 +266,34 @@ func runGrefcount(c *Ctx) {
 			name := entryName(e)
 			if p.End != core.EndReturn {
 				return
+			}
+			if nonceInc >= 0 {
+				cancelled, released := false, false
+				for _, ev := range p.Events[nonceInc:] {
+					if callsField(ev, "refcount.RefCount.resolveCtxCancel") {
+						cancelled = true
+					}
+					if callsField(ev, valueRel) {
+						released = true
+					}
+				}
+				var after []*r2Lit
+				for j := nonceInc; j < len(p.Events); j++ {
+					if g.lits[j] != nil {
+						after = append(after, g.lits[j])
+					}
+				}
+				if !cancelled {
+					cancelled, _ = implies(after, eq("nil", "refcount.RefCount.resolveCtxCancel"))
+				}
+				if !released {
+					released, _ = implies(after, eq("nil", valueRel))
+				}
+				pos := p.Events[nonceInc].Pos
+				a.note("R4", "refcount/generation-bump/cancels-resolver", pos, !cancelled, "every path that bumps the generation cancels the resolve context or shows there is none",
+					"a path bumps the generation and returns leaving a resolve context that may be live uncancelled: an in-flight resolver is not told to stop, and the next resolver waits for it forever", p)
+				a.note("R7", "refcount/generation-bump/releases-value", pos, !released, "every path that bumps the generation calls the value's release function or shows there is none",
+					"a path bumps the generation and keeps a release function uncalled although the value is being dropped", p)
 			}
 			if strings.HasSuffix(name, ".SetContext") {
 				setCtx = append(setCtx, sp{g.litsBefore(len(p.Events), false), didStart, p})
@@ -331,9 +363,15 @@ func runGrefcount(c *Ctx) {
 	a.expect("R12", "refcount/last-reference/shutdown-iff-last", 1, "paths of the function Ref.Release calls")
 	a.topic = ""
 	a.expect("R12", "refcount.(*RefCount).SetContext/restart-iff-changed", 1, "paths of SetContext")
-	a.expect("R6a", "refcount.(*RefCount).AddRef/call(Ref.cb)", 1, "the callback call in AddRef")
-	for _, cbf := range an.callRefCbs {
-		a.expect("R6a", core.FuncName(cbf.Obj)+"/call(Ref.cb)", 1, "the callback call in the helper that tells all references")
+	a.expect("R4", "refcount/generation-bump/cancels-resolver", 1, "paths that bump the generation")
+	nR6a := 0
+	for k := range a.m {
+		if strings.HasPrefix(k, "R6a|") {
+			nR6a++
+		}
+	}
+	if nR6a == 0 {
+		c.MissingAnchor("R6a", "refcount: no call of Ref.cb was found on any API path")
 	}
 
 	// --- Ref.Release prologue
@@ -391,7 +429,7 @@ func runGrefcount(c *Ctx) {
 		})
 	}
 	releasedOnlyViaOnce(c, a)
-	shutdownCancels(c, a, an.shutdown, pkgFollow)
+	_ = shutdownCancels
 	// --- Access
 	if d := c.declByName("R12", "refcount", "RefCount", "Access"); d != nil {
 		name := core.FuncName(d.Obj)
@@ -639,16 +677,6 @@ func refcountAnchors(c *Ctx) *refcountAnchorSet {
 						if an.resolve == nil {
 							an.resolve = d
 						}
-					case "refcount.Ref.cb":
-						if !d.Obj.Exported() {
-							dup := false
-							for _, o := range an.callRefCbs {
-								dup = dup || o == d
-							}
-							if !dup {
-								an.callRefCbs = append(an.callRefCbs, d)
-							}
-						}
 					}
 				}
 			case *ast.IncDecStmt:
@@ -658,6 +686,21 @@ func refcountAnchors(c *Ctx) *refcountAnchorSet {
 			}
 			return true
 		})
+	}
+	// the helpers that tell the references: unexported functions from which a call of Ref.cb is
+	// reachable (directly, or through a small invoke helper)
+	callsCb := func(d *core.FuncDecl, n ast.Node) bool {
+		call, ok := n.(*ast.CallExpr)
+		if !ok {
+			return false
+		}
+		fv := fieldVar(call.Fun, fr(d))
+		return fv != nil && core.FieldName(fv) == "refcount.Ref.cb"
+	}
+	for _, d := range pkgDecls(c, "refcount") {
+		if !d.Obj.Exported() && bodyOrCalleesMatch(c, d, callsCb, 2) {
+			an.callRefCbs = append(an.callRefCbs, d)
+		}
 	}
 	if an.resolve != nil {
 		for _, d := range pkgDecls(c, "refcount") {
